@@ -215,6 +215,25 @@ def run_case(c):
     return Out(labels, overlap)
 
 
+def stall_cases(tier, seed):
+    """A slow device: one multi-APDU request whose exchanges each stay under the 10 s exchange
+    time-out of the device link but add up to more than it, with another client arriving in the
+    meantime."""
+    return [
+        {"clients": [{"offset_ms": 0, "script": ["state"]},
+                     {"offset_ms": 1000, "script": ["getPubKey", "sign_unauth"]}],
+         "delays_us": [1400000]},
+        {"clients": [{"offset_ms": 0, "script": ["advance"]},
+                     {"offset_ms": 500, "script": ["state"]},
+                     {"offset_ms": 900, "script": ["signerHb"]}],
+         "delays_us": [600000]},
+    ]
+
+
 def stages(tier):
-    return [HypStage("schedules", lambda t: cases(t), run_case, {"quick": 6, "thorough": 150},
+    from vlib.runner import EnumStage
+    return [EnumStage("slow-device", stall_cases, run_case,
+                      exhaustive={"quick": True, "thorough": True},
+                      budget_s={"quick": 120, "thorough": 120}, workers=2),
+            HypStage("schedules", lambda t: cases(t), run_case, {"quick": 6, "thorough": 150},
                      budget_s={"quick": 90, "thorough": 1500}, shrink=False)]
